@@ -649,6 +649,14 @@ class Interp:
                 return base.args
             if attr == "__cause__":
                 return base.cause
+            if attr in ("errno", "winerror") and self.exc_isinstance(base.cls, "OSError"):
+                v = SOpt(self.ctx.fresh_bool("errno_none"), SInt(self.ctx.fresh_int("errno")))
+                base.fields[attr] = v
+                return v
+            if attr in ("strerror", "filename"):
+                v = SOpt(self.ctx.fresh_bool(attr + "_none"), SStr(self.ctx.fresh_str(attr)))
+                base.fields[attr] = v
+                return v
             raise Unsupported(f"exception attribute {attr} of {base.cls}")
         if isinstance(base, Ignored):
             return Ignored(base.what)
@@ -1376,6 +1384,9 @@ class Interp:
             if not self.ctx.decide(z3.And(i >= 0, i < n), "del-idx"):
                 raise Unsupported("del with negative/out-of-range symbolic index")
             base.z = z3.Concat(z3.Extract(base.z, z3.IntVal(0), i), z3.Extract(base.z, i + 1, n - i - 1))
+            return
+        if isinstance(base, (TheoryObj, SOpaque)):
+            self.call_method(base, "__delitem__", [idx], {})
             return
         raise Unsupported(f"del on {type(base).__name__}")
 
